@@ -242,7 +242,7 @@ theorem c19_composed_net {Re : Type} (io : IO) (px : E.ParseExt) (lists : List R
     · exact f1 rfl true (List.mem_append_left _ (List.mem_map.2 ⟨idx, hc, rfl⟩)) rfl hm'
     · exact f1 rfl false (List.mem_append_right _ (List.mem_map.2 ⟨idx, hc, rfl⟩)) rfl hm'
 
-/-! ### Non-vacuity, from list BYTES: two file-backed lists; the first query retrieves `/banner` (list 1); list 1 is
+/-! ### Non-vacuity, from list BYTES: two file-backed lists; the first query retrieves `/banner` (list 1)
     (and, as a non-matching candidate of the domains table, `/ad$domain=c.org` of list -2); list 1 is
     closed; the second query would fault-free return four rules.  `-ads-` of list 1 was never retrieved and is
     lost, `/banner` of list 1 is served from the cache, the rules of list -2 are still read: the degraded answer
